@@ -40,6 +40,8 @@ pub struct UnbondLc {
     pub with_slash_bonded: bool,
     pub with_foreign_receive: bool,
     pub slash_vals: Vec<&'static str>,
+    /// multiplies every amount of the seeds and of `amounts_abs` (1e15 puts the pools at 1e18)
+    pub scale: u128,
 }
 
 impl UnbondLc {
@@ -64,6 +66,7 @@ impl UnbondLc {
             with_slash_bonded: false,
             with_foreign_receive: false,
             slash_vals: vec!["val1"],
+            scale: 1,
         }
     }
 }
@@ -92,7 +95,8 @@ impl Scenario for UnbondLc {
         let mut out = vec![];
         for s in &self.seeds {
             let cfg = Cfg { epoch: self.epoch, unbonding: self.unbonding, peg_fee: self.peg_fee, ..Cfg::default() };
-            let mut prefix: Vec<Action> = vec![bond(ALICE, 1000), bond_st(BOB, 777), bond_st(ALICE, 300), bond(BOB, 200)];
+            let k = self.scale;
+            let mut prefix: Vec<Action> = vec![bond(ALICE, 1000 * k), bond_st(BOB, 777 * k), bond_st(ALICE, 300 * k), bond(BOB, 200 * k)];
             match *s {
                 "funded" => {}
                 "slashed" => {
@@ -101,20 +105,32 @@ impl Scenario for UnbondLc {
                     prefix.push(check_slashing(CAROL));
                 }
                 "inflight" => {
-                    prefix.push(unbond(ALICE, BSEI, 100));
+                    prefix.push(unbond(ALICE, BSEI, 100 * k));
                     prefix.push(advance(self.epoch + 1));
-                    prefix.push(unbond(BOB, STSEI, 50));
+                    prefix.push(unbond(BOB, STSEI, 50 * k));
                     prefix.push(advance(1));
                 }
                 "two_inflight" => {
-                    prefix.push(unbond(ALICE, BSEI, 100));
+                    prefix.push(unbond(ALICE, BSEI, 100 * k));
                     prefix.push(advance(self.epoch + 1));
-                    prefix.push(unbond(BOB, STSEI, 50));
+                    prefix.push(unbond(BOB, STSEI, 50 * k));
                     prefix.push(advance(self.epoch + 1));
-                    prefix.push(unbond(ALICE, STSEI, 37));
-                    prefix.push(unbond(BOB, BSEI, 11));
+                    prefix.push(unbond(ALICE, STSEI, 37 * k + 1));
+                    prefix.push(unbond(BOB, BSEI, 11 * k + 3));
                     prefix.push(advance(self.epoch + 1));
                     prefix.push(unbond(BOB, BSEI, 1));
+                    prefix.push(advance(1));
+                }
+                "ten_batches" => {
+                    // a long history: ten closed batches, claims of one user on both sides of the 9/10 boundary,
+                    // the older ones matured and nobody has withdrawn yet
+                    for i in 0..10u128 {
+                        prefix.push(advance(self.epoch + 1));
+                        prefix.push(unbond(ALICE, if i % 2 == 0 { STSEI } else { BSEI }, (5 + i) * k));
+                        if i == 3 || i == 8 {
+                            prefix.push(unbond(BOB, STSEI, 7 * k));
+                        }
+                    }
                     prefix.push(advance(1));
                 }
                 "three_users" => {
@@ -211,7 +227,7 @@ impl Scenario for UnbondLc {
         for u in &self.users {
             for tok in &self.tokens {
                 let bal = o.tok_bal(tok, u);
-                let mut am: Vec<u128> = self.amounts_abs.clone();
+                let mut am: Vec<u128> = self.amounts_abs.iter().map(|a| if *a > 1 { a * self.scale + a % 7 } else { *a }).collect();
                 if self.sym {
                     am.extend(sym_amounts(bal));
                 }
